@@ -7,7 +7,7 @@ from typing import Any, Dict, List
 import numpy as np
 
 from harness import shell
-from harness.common import vhex
+from harness.common import fhex,  vhex
 from harness.runner import run_property
 from harness.trace import Run, result_str
 
@@ -42,7 +42,46 @@ def subseq_pairs(Xs: List[np.ndarray], Gs: List[np.ndarray], sk: np.ndarray, yk:
     return False
 
 
+def evaluate_filter(case: Dict[str, Any]) -> Dict[str, Any]:
+    """the history filter alone: one-dimensional histories (every pattern of curvature signs between retained points can be
+    produced, and the dot products are single multiplications, hence bit-comparable with the Lean model)"""
+    from collections import deque
+    from lbfgsb.bfgsmats import make_X_and_G_respect_strong_wolfe
+    from harness.common import vshex
+    out: Dict[str, Any] = {"corr": [], "skipped": None, "tags": ["kind=filter"], "prop": []}
+    rng = np.random.default_rng(case["seed"])
+    m = case["m"]
+    # strictly increasing points; gradients = a monotone ramp perturbed so that some consecutive (and some merged) pairs lose curvature
+    X = np.cumsum(rng.uniform(0.1, 1.0, m))
+    G = np.cumsum(rng.uniform(-0.6, 1.0, m)) if case["style"] == "walk" else rng.uniform(-1, 1, m) + 0.6 * np.arange(m) * rng.uniform(0, 1)
+    eps = case["eps"]
+    Xd, Gd = deque([np.array([v]) for v in X]), deque([np.array([v]) for v in G])
+    Xo, Go = make_X_and_G_respect_strong_wolfe(Xd, Gd, eps)
+    Xo, Go = [np.asarray(v) for v in Xo], [np.asarray(v) for v in Go]
+    # property: newest retained, subsequence, every retained consecutive pair has curvature
+    if not Xo or vhex(Xo[-1]) != vhex(np.array([X[-1]])) or vhex(Go[-1]) != vhex(np.array([G[-1]])):
+        out["prop"].append({"what": "history filter: the newest point is not retained", "key": ""})
+    it = iter(range(m))
+    if not all(any(vhex(np.array([X[j]])) == vhex(a) and vhex(np.array([G[j]])) == vhex(b) for j in it) for a, b in zip(Xo, Go)):
+        out["prop"].append({"what": "history filter: output is not an order-preserving subsequence of the input", "key": ""})
+    for (a, ga), (b, gb) in zip(zip(Xo, Go), zip(Xo[1:], Go[1:])):
+        sy, yy = float((b - a) @ (gb - ga)), float((gb - ga) @ (gb - ga))
+        if not sy > eps * yy:
+            out["prop"].append({"what": "history filter: a retained pair violates the curvature condition", "key": "",
+                                "detail": {"X": [float(v) for v in X], "G": [float(v) for v in G], "kept": [float(v[0]) for v in Xo]}})
+            break
+    got = shell.driver().run([f"filter {fhex(eps)} {vshex([[v] for v in X])} {vshex([[v] for v in G])}"])
+    exp = f"filter {vshex(Xo)} {vshex(Go)}"
+    if not got or got[0] != exp:
+        out["corr"].append(f"history filter: implementation keeps {[float(v[0]) for v in Xo]}, model says {(got or [''])[0][:120]}")
+    out["tags"].append(f"dropped={min(m - len(Xo), 4)}")
+    out["nontrivial"] = f"filter:{case['seed']}" if len(Xo) < m else None
+    return out
+
+
 def evaluate(case: Dict[str, Any]) -> Dict[str, Any]:
+    if case.get("kind") == "filter":
+        return evaluate_filter(case)
     out: Dict[str, Any] = {"corr": [], "skipped": None, "tags": [], "prop": []}
     kw, desc, p = shell.build(case)
     kind = case["features"]["update"]
@@ -174,6 +213,12 @@ def run(tier: str, seed: int) -> int:
         cases.append({"seed": s, "features": feat, "families": ["qp", "qp_quartic", "qp_softplus", "rosen", "styb", "osc"],
                       "override": {"maxiter": r.choice([8, 12, 20]), "maxfun": 15000, "ftol": r.choice([0.0, 1e-12]) if kind != "identity" else r.choice([0.0, 1e-5, 1e-2]),
                                    "maxcor": r.choice([2, 3, 5, 10])}})
+    nf = 1500 if tier == "quick" else 40000
+    for i in range(nf):
+        s = seed * 1_000_003 + 600_000 + i
+        r = random.Random(s)
+        cases.append({"seed": s, "kind": "filter", "m": r.randint(2, 9), "style": r.choice(["walk", "ramp"]),
+                      "eps": r.choice([2.2e-16, 0.0, 1e-3, 0.2])})
     return run_property(
         PROP, "harness.props.c13", THEOREMS, MODULES, cases, tier, seed,
         rule="runs with an update function: identity (compared bit for bit with the run without it), consistent objective switches at "
